@@ -14,6 +14,8 @@ package c13
 import (
 	"fmt"
 	"net/netip"
+	"os"
+	"runtime"
 	"strings"
 	"testing"
 	"time"
@@ -602,6 +604,30 @@ func run(e *core.Env) {
 				sendFromM(f)
 				w.panics()
 				e.Fault("malformed_sealed_frame")
+				// The same message again, 1..6 times in quick succession, each freshly sealed
+				// (rate limits, cool-downs and duplicate handling have paths of their own).
+				if tp.Chance(1, 5) && !firstContact {
+					for rep, nrep := 0, 1+tp.Intn(6); rep < nrep; rep++ {
+						g, err := M.Inst.Builder.NewFrameV1(src.IP, dst, mt, sb, body, apx)
+						if err != nil {
+							break
+						}
+						ok := false
+						if sess := M.State.GetSession(dst); sess != nil {
+							ok = g.Seal(sess) == nil
+						} else if sess := M.State.GetSession(V.IP); sess != nil {
+							ok = g.Seal(sess) == nil
+						}
+						if !ok {
+							g.ReturnToPool()
+							break
+						}
+						w.what = fmt.Sprintf("repetition %d of frame from M: %s type=%d dst=%s body=%d", rep+1, kind, mt, dst, len(body))
+						sendFromM(g)
+						w.panics()
+						e.Fault("repeated_message")
+					}
+				}
 			}
 		}
 		w.panics()
@@ -623,6 +649,19 @@ func run(e *core.Env) {
 			e.Fail("router-stalled", "after %s the honest peer's ping to V got no answer within 5 s", w.what)
 		}
 		w.panics()
+	}
+	// ---- no worker is left waiting for something that never comes ----
+	// (H's ping above only fails once every worker of a pool is stuck; a single stuck worker
+	// shows when the router is told to stop and one of its workers is still there two
+	// simulated minutes later.)
+	_ = w.V.Listener.Close() // as the protocol's Stop does; the accept loop ends with its listener
+	if !V.Kill() {
+		if os.Getenv("VERIF_DEBUG_STACKS") != "" {
+			buf := make([]byte, 1<<20)
+			buf = buf[:runtime.Stack(buf, true)]
+			fmt.Fprintf(os.Stderr, "%s\n", buf)
+		}
+		e.Fail("worker-never-returns", "a worker of V is still running 2 simulated minutes after cancellation: it waits for something that never comes (last input: %s)", w.what)
 	}
 	e.Sample("%d batches; last: %s", nBatches, w.what)
 }
